@@ -162,7 +162,32 @@ class SymAny:
         return f"SymAny({self.t})"
 
     def __format__(self, s):
-        return "<any>"
+        return MARK
+
+    # -- an opaque value used as a dict (event context "metadata") or as an int ("weight"):
+    #    uninterpreted projections, so the proof holds for every content of the value
+    def get(self, key, default=None):
+        kt = Str.unwrap(key)
+        has = z3.Function("any_has", AnySort, z3.StringSort(), z3.BoolSort())
+        getf = z3.Function("any_get", AnySort, z3.StringSort(), AnySort)
+        if _c().branch(has(self.t, kt), site="anyget"):
+            return SymAny(getf(self.t, kt))
+        return default
+
+    def _as_int(self):
+        f = z3.Function("any_int", AnySort, z3.IntSort())
+        return SymInt(f(self.t))
+
+    def __add__(self, o): return self._as_int() + o
+    def __radd__(self, o): return o + self._as_int()
+    def __sub__(self, o): return self._as_int() - o
+    def __rsub__(self, o): return o - self._as_int()
+    def __mul__(self, o): return self._as_int() * o
+    def __rmul__(self, o): return o * self._as_int()
+    def __lt__(self, o): return self._as_int() < o
+    def __le__(self, o): return self._as_int() <= o
+    def __gt__(self, o): return self._as_int() > o
+    def __ge__(self, o): return self._as_int() >= o
 
 
 class _TAny(Ty):
